@@ -411,6 +411,13 @@ pub fn perturb_voice(v: &jbonsai::model::Voice, rng: &mut Rng) -> jbonsai::model
     serde_json::from_value(val).expect("voice deserializes")
 }
 
+/// copy of a voice whose GV-off contexts are replaced (through its serde representation)
+pub fn with_gv_off(v: &jbonsai::model::Voice, patterns: &[String]) -> jbonsai::model::Voice {
+    let mut val = serde_json::to_value(v).expect("voice serializes");
+    val["metadata"]["gv_off_context"] = serde_json::json!({ "Regex": patterns });
+    serde_json::from_value(val).expect("voice deserializes")
+}
+
 // =========================================================================================== C11
 pub fn gen_c11(seed: u64, thorough: bool) {
     let mut rng = Rng::new(seed);
@@ -614,7 +621,12 @@ pub fn gen_c12(seed: u64, thorough: bool) {
     }
     // (b) the property on the bundled voice and perturbed copies
     for i in 0..n {
-        let (e0, kind) = if i % 2 == 0 { (src.bundled.clone(), "bundled") } else { (engine_of(vec![Arc::new(perturb_voice(&bundled_voice, &mut rng))]).unwrap(), "perturbed") };
+        // every fifth case: a perturbed copy whose GV-off contexts also cover a vowel, so that voiced frames are ineligible too
+        let mut gv_off_patterns = gv_off_patterns.clone();
+        let (e0, kind) = if i % 5 == 4 {
+            gv_off_patterns.push(rng.pick(&["*-a+*", "*-o+*", "*-i+*"]).to_string());
+            (engine_of(vec![Arc::new(with_gv_off(&perturb_voice(&bundled_voice, &mut rng), &gv_off_patterns))]).unwrap(), "perturbed-gvoff")
+        } else if i % 2 == 0 { (src.bundled.clone(), "bundled") } else { (engine_of(vec![Arc::new(perturb_voice(&bundled_voice, &mut rng))]).unwrap(), "perturbed") };
         let silence_only = i % 8 == 7;
         let lines: Vec<String> = if silence_only {
             src.corpus.iter().filter(|l| l.contains("-sil+") || l.contains("-pau+")).take(rng.range(1, 3)).cloned().collect()
